@@ -5,9 +5,15 @@ package corr
 // the Lean model; the `conc` op runs real concurrent writers and prints only a verdict.
 
 import (
+	"bytes"
+	"runtime"
+	"context"
 	"encoding/hex"
 	"errors"
 	"fmt"
+	"io"
+	"net"
+	"os"
 	"strings"
 	"sync"
 	"testing"
@@ -20,6 +26,18 @@ import (
 const twccURI = "http://www.ietf.org/id/draft-holmer-rmcat-transport-wide-cc-extensions-01"
 
 var errBottom = errors.New("bottom writer failed")
+
+// c15BottomErrs: the error VALUES the bottom writer returns for `be=<code>` - the interceptor must hand any of
+// them back unchanged and the number stays consumed whatever the value is.
+var c15BottomErrs = []struct {
+	name string
+	err  error
+}{
+	{"nil", nil}, {"bottom", errBottom}, {"closedpipe", io.ErrClosedPipe}, {"eof", io.EOF},
+	{"wrapped-closedpipe", fmt.Errorf("transport: %w", io.ErrClosedPipe)}, {"netclosed", net.ErrClosed},
+	{"canceled", context.Canceled}, {"shortwrite", io.ErrShortWrite}, {"deadline", os.ErrDeadlineExceeded},
+	{"osclosed", os.ErrClosed},
+}
 
 // ---- header shapes shared by the C15 and C01 harnesses -----------------------------------
 
@@ -133,6 +151,9 @@ func genExtElems(r *Rng, prof int, n int, mustHave int) []extElem {
 		case 0x1000:
 			l = r.Pick(0, 1, 2, 3, 4, 17, 40, 255)
 		}
+		if id == mustHave && r.Chance(2, 3) {
+			l = 2 // what the element of a forwarded packet looks like: a transport-cc number
+		}
 		p := make([]byte, l)
 		for i := range p {
 			p[i] = byte(r.U64())
@@ -237,11 +258,13 @@ func genPayload(r *Rng) []byte {
 // ---- the component -----------------------------------------------------------------------
 
 func c15ErrClass(err error) string {
-	switch {
-	case err == nil:
+	if err == nil {
 		return "nil"
-	case errors.Is(err, errBottom):
-		return "bottom"
+	}
+	for _, e := range c15BottomErrs[1:] {
+		if err == e.err { // the very value the bottom writer returned
+			return e.name
+		}
 	}
 	s := err.Error()
 	switch {
@@ -307,14 +330,49 @@ func parseDecls(s string) ([]interceptor.RTPHeaderExtension, bool) {
 	return out, true
 }
 
+// c15Owned is something the CALLER owns and may still look at after Write returned: a receive buffer a header
+// was parsed from, or a slice it handed to SetExtension / passed as payload.  `orig` is its content at hand-over.
+type c15Owned struct {
+	cur, orig []byte
+}
+
 func c15Run(t *testing.T, ops []string, o *Out) {
 	ic := newHdrExt(t)
 	writers := map[int]interceptor.RTPWriter{}
 	// the bottom writer of the next call: result to return
-	var bn int
-	var be bool
+	var bn, be int
 	var burst *[]uint16 // non-nil while a burst op runs: record numbers instead of printing
 	burstOK := true
+	// retain mode: the bottom writer keeps the header OBJECTS (a transport that batches until flush) and they
+	// are printed at `flush` only - what they look like then is what would go on the wire
+	retain := false
+	type kept struct {
+		h *rtp.Header
+		p []byte
+	}
+	var held []kept
+	var owned []c15Owned
+	own := func(b []byte) {
+		if len(b) > 0 {
+			owned = append(owned, c15Owned{cur: b, orig: append([]byte(nil), b...)})
+		}
+	}
+	ownHeader := func(h *rtp.Header) {
+		if h == nil {
+			return
+		}
+		for _, id := range h.GetExtensionIDs() {
+			own(h.GetExtension(id))
+		}
+	}
+	bufs := map[int][]byte{}
+	wline := func(h *rtp.Header, p []byte) {
+		pad := 0
+		if h != nil {
+			pad = int(h.PaddingSize)
+		}
+		o.P("w hdr=%s pad=%d pl=%s", hdrHex(h), pad, hexs(p))
+	}
 	bottom := interceptor.RTPWriterFunc(func(h *rtp.Header, p []byte, _ interceptor.Attributes) (int, error) {
 		if burst != nil {
 			ids := h.GetExtensionIDs()
@@ -326,15 +384,12 @@ func c15Run(t *testing.T, ops []string, o *Out) {
 			*burst = append(*burst, e.TransportSequence)
 			return 0, nil
 		}
-		pad := 0
-		if h != nil {
-			pad = int(h.PaddingSize)
+		if retain {
+			held = append(held, kept{h, p})
+		} else {
+			wline(h, p)
 		}
-		o.P("w hdr=%s pad=%d pl=%s", hdrHex(h), pad, hexs(p))
-		if be {
-			return bn, errBottom
-		}
-		return bn, nil
+		return bn, c15BottomErrs[be].err
 	})
 	for _, op := range ops {
 		func() {
@@ -362,10 +417,62 @@ func c15Run(t *testing.T, ops []string, o *Out) {
 				}
 				s := atoi(m["s"])
 				writers[s] = ic.BindLocalStream(&interceptor.StreamInfo{SSRC: uint32(s), RTPHeaderExtensions: ds}, bottom)
+			case "retain":
+				retain = true
+			case "buf":
+				// a caller-owned receive buffer holding the wire form of the packet
+				h, ok := parseHdr(m)
+				pl, ok2 := unhex(m["pl"])
+				if !ok || !ok2 || m["k"] == "" {
+					o.P("bad-op")
+					return
+				}
+				hb, err := h.Marshal()
+				if err != nil {
+					o.P("bad-op")
+					return
+				}
+				b := append(hb, pl...)
+				bufs[atoi(m["k"])] = b
+				own(b)
+			case "writeu":
+				// forward a received packet: the header is parsed from the caller's buffer and aliases it
+				w, ok := writers[atoi(m["s"])]
+				b, ok2 := bufs[atoi(m["k"])]
+				code := atoi(m["be"])
+				if !ok || !ok2 || m["bn"] == "" || code < 0 || code >= len(c15BottomErrs) {
+					o.P("bad-op")
+					return
+				}
+				h := &rtp.Header{}
+				n, err := h.Unmarshal(b)
+				if err != nil {
+					o.P("bad-op")
+					return
+				}
+				bn, be = atoi(m["bn"]), code
+				rn, werr := w.Write(h, b[n:], interceptor.Attributes{})
+				o.P("ret n=%d err=%s", rn, c15ErrClass(werr))
+			case "flush":
+				for _, k := range held {
+					wline(k.h, k.p)
+				}
+				held = nil
+				mod := false
+				for _, x := range owned {
+					if !bytes.Equal(x.cur, x.orig) {
+						mod = true
+					}
+				}
+				o.P("caller-buffer-modified=%v", mod)
 			case "write", "writenil":
 				w, ok := writers[atoi(m["s"])]
 				pl, ok2 := unhex(m["pl"])
-				if !ok || !ok2 || m["bn"] == "" || (m["be"] != "0" && m["be"] != "1") {
+				code := 0
+				if m["be"] != "" {
+					code = atoi(m["be"])
+				}
+				if !ok || !ok2 || m["bn"] == "" || m["be"] == "" || code < 0 || code >= len(c15BottomErrs) {
 					o.P("bad-op")
 					return
 				}
@@ -377,7 +484,9 @@ func c15Run(t *testing.T, ops []string, o *Out) {
 						return
 					}
 				}
-				bn, be = atoi(m["bn"]), m["be"] == "1"
+				ownHeader(h) // the slices the caller handed to SetExtension stay the caller's
+				own(pl)
+				bn, be = atoi(m["bn"]), code
 				n, err := w.Write(h, pl, interceptor.Attributes{})
 				o.P("ret n=%d err=%s", n, c15ErrClass(err))
 			case "burst":
@@ -389,6 +498,7 @@ func c15Run(t *testing.T, ops []string, o *Out) {
 				}
 				// n minimal packets (no extension yet) through the stream's writer; digest only
 				nums := make([]uint16, 0, n)
+				be = 0
 				burst, burstOK = &nums, true
 				for i := 0; i < n; i++ {
 					if _, err := w.Write(&rtp.Header{Version: 2, SequenceNumber: uint16(i)}, nil, nil); err != nil {
@@ -408,7 +518,7 @@ func c15Run(t *testing.T, ops []string, o *Out) {
 				}
 				o.P("burst first=%d last=%d run=%v count=%d", first, last, run, len(nums))
 			case "conc":
-				o.P("%s", c15Conc(t, uint32(atoi(m["c0"])), parseInts(m["ids"]), atoi(m["per"]), atoi(m["epochs"]), uint64(atoi(m["seed"]))))
+				o.P("%s", c15Conc(t, uint32(atoi(m["c0"])), parseInts(m["ids"]), atoi(m["per"]), atoi(m["epochs"]), uint64(atoi(m["seed"])), atoi("0"+m["fail"])))
 			default:
 				o.P("bad-op")
 			}
@@ -419,7 +529,12 @@ func c15Run(t *testing.T, ops []string, o *Out) {
 // c15Conc: real concurrent writers, one goroutine per stream, `epochs` rounds of `per` packets
 // each with a barrier between rounds (so that the 16-bit numbers of one round unwrap
 // unambiguously: a round hands out at most 32768 numbers).  Only the verdict is printed.
-func c15Conc(t *testing.T, c0 uint32, ids []int, per, epochs int, seed uint64) string {
+//
+// fail > 0: on every stream every fail-th call of the bottom writer fails, with the error values of
+// c15BottomErrs in rotation, after a scheduling point (a slow, failing transport).  The number such a packet
+// carried stays consumed, so the verdict is computed over all packets handed to the bottom writer; the error
+// must come back to the writer goroutine as the very value the bottom writer returned.
+func c15Conc(t *testing.T, c0 uint32, ids []int, per, epochs int, seed uint64, fail int) string {
 	g := len(ids)
 	if g < 1 || g > 16 || per < 1 || g*per > 32768 || g*per*epochs > 400000 {
 		return "bad-op"
@@ -430,6 +545,17 @@ func c15Conc(t *testing.T, c0 uint32, ids []int, per, epochs int, seed uint64) s
 		nums      []uint16 // negotiated: transport sequence numbers in bottom order
 		bad       bool
 		untouched int
+		calls     int
+		want      error // what the bottom writer returned for the call in progress
+	}
+	failNow := func(r *rec) error {
+		r.calls++
+		r.want = nil
+		if fail > 0 && r.calls%fail == 0 {
+			r.want = c15BottomErrs[1+(r.calls/fail)%(len(c15BottomErrs)-1)].err
+			runtime.Gosched()
+		}
+		return r.want
 	}
 	recs := make([]*rec, g)
 	writers := make([]interceptor.RTPWriter, g)
@@ -450,19 +576,19 @@ func c15Conc(t *testing.T, c0 uint32, ids []int, per, epochs int, seed uint64) s
 				} else {
 					r.bad = true
 				}
-				return len(p), nil
+				return len(p), failNow(r)
 			}
 			var e rtp.TransportCCExtension
 			if err := e.Unmarshal(h.GetExtension(id)); err != nil || len(p) != 3 {
 				r.bad = true
-				return 0, nil
+				return 0, failNow(r)
 			}
 			// the pre-existing element (id 14 resp. 15, never negotiated here) must still be there
 			if (h.SequenceNumber%3 == 1 && len(h.GetExtension(14)) != 1) || (h.SequenceNumber%3 == 2 && len(h.GetExtension(15)) != 1) {
 				r.bad = true
 			}
 			r.nums = append(r.nums, e.TransportSequence)
-			return len(p), nil
+			return len(p), failNow(r)
 		})
 		var decls []interceptor.RTPHeaderExtension
 		if ids[i] != 0 {
@@ -492,7 +618,7 @@ func c15Conc(t *testing.T, c0 uint32, ids []int, per, epochs int, seed uint64) s
 						h.Extension, h.ExtensionProfile = true, rtp.ExtensionProfileTwoByte
 						_ = h.SetExtension(15, []byte{9})
 					}
-					if _, err := writers[i].Write(h, payload, nil); err != nil {
+					if _, err := writers[i].Write(h, payload, nil); err != recs[i].want {
 						recs[i].bad = true
 					}
 				}
@@ -585,7 +711,7 @@ func c15Gen(r *Rng, tier string, idx int) Case {
 	// the framework seeds case i with s0+i*gamma and splitmix64 steps by the same gamma, so the
 	// raw streams of neighbouring cases are shifted copies of each other; re-key from one output.
 	r = NewRng(r.U64() ^ 0xC15C15C15)
-	classes := []string{"onebyte", "twobyte", "noext", "mixed", "excluded", "wrap16", "wrap32", "stale", "burst"}
+	classes := []string{"onebyte", "twobyte", "noext", "mixed", "excluded", "wrap16", "wrap32", "stale", "burst", "alias", "faults"}
 	cl := classes[idx%len(classes)]
 	concEvery := 125
 	if tier == "thorough" {
@@ -621,8 +747,23 @@ func c15Gen(r *Rng, tier string, idx int) Case {
 			per--
 		}
 		c0 := r.Pick(0, 65000, 4294967295-30000, 4294960000, int(r.U64()&0xFFFFFFFF))
-		ops = append(ops, fmt.Sprintf("conc c0=%d ids=%s per=%d epochs=%d seed=%d", c0, joinInts(ids), per, epochs, r.Intn(1<<30)))
+		ops = append(ops, fmt.Sprintf("conc c0=%d ids=%s per=%d epochs=%d seed=%d fail=%d", c0, joinInts(ids), per, epochs, r.Intn(1<<30), r.Pick(0, 2, 3, 7, 50)))
 		return Case{Class: cl, Ops: ops}
+	}
+	// the bottom writer's result: mostly success; failures with different error VALUES
+	faultDen := 6
+	if cl == "faults" {
+		faultDen = 2
+	}
+	beCode := func() int {
+		if r.Chance(1, faultDen) {
+			return r.Range(1, len(c15BottomErrs)-1)
+		}
+		return 0
+	}
+	// the bottom writer keeps the header objects until the end of the case (printed at `flush`)
+	if cl == "alias" || r.Chance(1, 3) {
+		ops = append(ops, "retain")
 	}
 	// counter preset
 	switch cl {
@@ -655,6 +796,9 @@ func c15Gen(r *Rng, tier string, idx int) Case {
 		if s == 0 && cl == "burst" {
 			id = r.Range(1, 14)
 		}
+		if cl == "alias" && s > 0 && r.Chance(2, 3) {
+			id = ids[0] // the same id on several streams, as after a real negotiation
+		}
 		ids[s] = id
 		ops = append(ops, fmt.Sprintf("bind s=%d exts=%s", s, c15Decls(r, id)))
 	}
@@ -677,21 +821,44 @@ func c15Gen(r *Rng, tier string, idx int) Case {
 			kind = r.Pick(4, 4, 0, 1)
 		case "excluded":
 			kind = r.Pick(3, 3, 1, 2, 0)
-		case "mixed":
+		case "mixed", "faults":
 			kind = r.Pick(0, 1, 2, 3, 4, 1, 2)
+		case "alias":
+			kind = r.Pick(1, 2, 1, 2, 0)
+		}
+		if cl == "alias" && r.Chance(2, 3) {
+			// a received packet, parsed from the caller's buffer, is forwarded to one or several streams (SFU
+			// fan-out): all the parsed headers alias the buffer.  Only shapes that survive marshal -> Unmarshal.
+			h := genHdr(r, kind, eff)
+			h.V, h.P, h.Pad = 2, false, 0
+			h.PT &= 127
+			var ext []extElem
+			for _, e := range h.Ext {
+				if !(h.Prof == 0xBEDE && len(e.Payload) == 0) {
+					ext = append(ext, e)
+				}
+			}
+			h.Ext = ext
+			k := i
+			ops = append(ops, fmt.Sprintf("buf k=%d %s pl=%s", k, h.String(), hexs(genPayload(r))))
+			for j := r.Range(1, 4); j > 0; j-- {
+				ops = append(ops, fmt.Sprintf("writeu s=%d k=%d bn=%d be=%d", r.Intn(ns), k, r.Intn(100), beCode()))
+			}
+			continue
 		}
 		if cl == "burst" && i == n/2 {
 			ops = append(ops, fmt.Sprintf("burst s=0 n=%d", r.Pick(70000, 65536, 65537, 1, 100, 131072)))
 			continue
 		}
 		if (cl == "excluded" || cl == "mixed") && r.Chance(1, 8) {
-			ops = append(ops, fmt.Sprintf("writenil s=%d pl=%s bn=%d be=%d", s, hexs(genPayload(r)), r.Intn(100), b01(r.Chance(1, 4))))
+			ops = append(ops, fmt.Sprintf("writenil s=%d pl=%s bn=%d be=%d", s, hexs(genPayload(r)), r.Intn(100), beCode()))
 			continue
 		}
 		h := genHdr(r, kind, eff)
 		pl := genPayload(r)
 		bn := r.Pick(len(pl), len(pl)+12, 0, 1500, -1)
-		ops = append(ops, fmt.Sprintf("write s=%d %s pl=%s bn=%d be=%d", s, h.String(), hexs(pl), bn, b01(r.Chance(1, 6))))
+		ops = append(ops, fmt.Sprintf("write s=%d %s pl=%s bn=%d be=%d", s, h.String(), hexs(pl), bn, beCode()))
 	}
+	ops = append(ops, "flush")
 	return Case{Class: cl, Ops: ops}
 }
